@@ -73,19 +73,34 @@ def r01_2(ctx, A):
             seen.add('dup')
             ctx.check(R, not sts, 'duplicate', 'the duplicate-key return must not touch the count', fn=f)
     ctx.check(R, seen == {'empty', 'new', 'dup'}, 'paths', 'inserting routine paths recognised: %s' % sorted(seen), fn=f, kind='undecided')
-    # reader side
-    for name, want in (('raw::FstRef::<\'f>::len', 'len'), ("raw::FstRef::<'f>::is_empty", 'is_empty')):
+    # reader side: anchored on the public accessors; private forwarding helpers (FstRef::len ...) are inlined
+    from absint import Prover
+    from rules.common import root_param
+    pv = Prover(lib)
+
+    def is_len_field(e):
+        rp, chain = root_param(e)
+        return rp is not None and rp[2] == 1 and chain[-2:] == ['meta', 'len'] and e[0] == 'field'
+    for name, want in (('raw::Fst::<D>::len', 'len'), ('raw::Fst::<D>::is_empty', 'is_empty')):
         g = lib.fn(name)
         if g is None:
             ctx.missing(R, 'anchor:' + name, name + ' not found')
             continue
         for p in explore(g, max_visits=1):
             if p.end == 'return':
-                rv = p.ret()
-                lf = ('field', ('field', ('param', g.local_name(1), 1), 'meta'), 'len')
-                ok = rv == lf if want == 'len' else (rv == ('bin', 'Eq', lf, ('const', 0)))
+                rv = pv.inline(p.ret())
+                while is_call(rv, 'AsRef::as_ref') or is_call(rv, '::as_ref'):
+                    rv = rv[2][0]
+                rv = strip_asref(rv)
+                ok = is_len_field(rv) if want == 'len' else (rv[0] == 'bin' and rv[1] == 'Eq' and is_len_field(rv[2]) and rv[3] == ('const', 0))
                 ctx.check(R, ok, 'reader:' + want, '%s() must report the stored key count%s: %s' % (want, ' = 0' if want == 'is_empty' else '', fmt(rv)[:60]), fn=g)
     return ins_out
+
+
+def strip_asref(e):
+    """Fst::as_ref() builds FstRef { meta: &self.meta, data }: look through that aggregate"""
+    from sym import map_children, simplify_proj
+    return simplify_proj(e)
 
 
 def r01_3(ctx, A):
@@ -154,7 +169,7 @@ def r01_5(ctx, A):
     lib = ctx.lib
     # Output arithmetic
     table = {'raw::Output::cat': lambda rv: rv[0] == 'agg' and rv[2][0][1][0] == 'bin' and rv[2][0][1][1] == 'Add' and fields01(rv[2][0][1]),
-             'raw::Output::prefix': lambda rv: rv[0] == 'agg' and is_call(rv[2][0][1], 'cmp::min') and fields01(('bin', 'x', rv[2][0][1][2][0], rv[2][0][1][2][1])),
+             'raw::Output::prefix': lambda rv: rv[0] == 'agg' and (is_call(rv[2][0][1], 'cmp::min') or is_call(rv[2][0][1], 'Ord::min')) and fields01(('bin', 'x', rv[2][0][1][2][0], rv[2][0][1][2][1])),
              'raw::Output::sub': lambda rv: rv[0] == 'agg' and any(is_call(x, 'checked_sub') and fields01(('bin', 'x', x[2][0], x[2][1]), ordered=True) for x in walk(rv)),
              'raw::Output::is_zero': lambda rv: rv == ('bin', 'Eq', ('field', ('param', 'self', 1), '0'), ('const', 0)),
              'raw::Output::value': lambda rv: rv == ('field', ('param', 'self', 1), '0'),
@@ -165,7 +180,12 @@ def r01_5(ctx, A):
         if f is None:
             ctx.missing(R, 'anchor:' + name, name + ' not found')
             continue
-        rs = [p.ret() for p in explore(f, max_visits=1) if p.end == 'return']
+        # private forwarding (Output::new(0), `self == Output::zero()` through the derived PartialEq) is inlined first
+        from absint import Prover
+        from sym import simplify_proj
+        pvo = Prover(lib)
+        pvo._tmpl[name] = None      # do not inline the function into itself
+        rs = [simplify_proj(pvo.inline(p.ret())) for p in explore(f, max_visits=1) if p.end == 'return']
         ok = False
         try:
             ok = len(rs) == 1 and bool(pred(rs[0]))
